@@ -43,6 +43,42 @@ def oscat_region(text: str):
     return None
 
 
+def reference_comments(text: str):
+    """the comments of a text by the lexical rules alone, independent of token.rs: `(*` up to the next `*)`, character
+    strings `'...'` / `"..."` (no comment starts inside one).  -> list of (byte start, byte end), or None where the rules
+    are not what decides (an unclosed comment or string, `//` comments, OSCAT description markers)"""
+    if '//' in text or '@KEY@' in text: return None
+    out = []
+    i, n = 0, len(text)
+    boff = [0] * (n + 1)
+    for k, ch in enumerate(text): boff[k + 1] = boff[k] + len(ch.encode('utf-8'))
+    while i < n:
+        if text.startswith('(*', i):
+            j = text.find('*)', i + 2)
+            if j < 0: return None
+            out.append((boff[i], boff[j + 2])); i = j + 2
+        elif text[i] in '\'"':
+            j = text.find(text[i], i + 1)
+            if j < 0: return None
+            i = j + 1
+        else:
+            i += 1
+    return out
+
+
+def comment_oracle(text: str, toks, errs):
+    """the Comment tokens of the implementation are exactly the comments of the text"""
+    ref = reference_comments(text)
+    if ref is None: return []
+    got = sorted((s, e) for (ty, s, e, l, c, f) in toks if ty == 'Comment' and f != 's')
+    if got == ref: return []
+    b = text.encode('utf-8')
+    for x in ref:
+        if x not in got: return [f'the comment at bytes {x[0]}..{x[1]} (`{b[x[0]:x[1]][:40].decode("utf-8", "replace")}`) is not a Comment token of the lexer (Comment tokens: {got[:6]})']
+    x = next(y for y in got if y not in ref)
+    return [f'the lexer returns a Comment token at bytes {x[0]}..{x[1]} (`{b[x[0]:x[1]][:60].decode("utf-8", "replace")}`) which is not one comment of the text (comments: {ref[:6]})']
+
+
 def token_oracle(text: str, toks, errs, check_linecol=True):
     """the C05 token clauses evaluated on an implementation answer. -> list of violation strings"""
     b = text.encode('utf-8')
@@ -84,4 +120,4 @@ def token_oracle(text: str, toks, errs, check_linecol=True):
             el, ecs = line_col_candidates(b, s)
             if l != el or c not in ecs:
                 out.append(f'{ty} at byte {s}: reported line {l} col {c}, span start is line {el} col {sorted(ecs)}')
-    return out
+    return out + comment_oracle(text, toks, errs)
